@@ -10,8 +10,27 @@ import (
 // try-and-yield; each primitive also contributes the happens-before edge the
 // Go memory model assigns it.
 
+// SingleThreaded is set by the harness: outside the scheduler exactly one goroutine
+// runs repository code, so a lock that cannot be taken can never be released either.
+var SingleThreaded bool
+
+// ErrDeadlock is the panic value of a self-deadlock detected in single-threaded mode.
+var ErrDeadlock = errDeadlock{}
+
+type errDeadlock struct{}
+
+func (errDeadlock) Error() string {
+	return "simrt: deadlock: the only running goroutine waits for a lock that is already held (left locked by an earlier call)"
+}
+
 func MutexLock(m *sync.Mutex) {
 	if !schedActive {
+		if SingleThreaded {
+			if !m.TryLock() {
+				panic(ErrDeadlock)
+			}
+			return
+		}
 		m.Lock()
 		return
 	}
@@ -36,6 +55,12 @@ func MutexTryLock(m *sync.Mutex) bool {
 
 func RWLock(m *sync.RWMutex) {
 	if !schedActive {
+		if SingleThreaded {
+			if !m.TryLock() {
+				panic(ErrDeadlock)
+			}
+			return
+		}
 		m.Lock()
 		return
 	}
@@ -52,6 +77,12 @@ func RWUnlock(m *sync.RWMutex) {
 
 func RWRLock(m *sync.RWMutex) {
 	if !schedActive {
+		if SingleThreaded {
+			if !m.TryRLock() {
+				panic(ErrDeadlock)
+			}
+			return
+		}
 		m.RLock()
 		return
 	}
